@@ -167,6 +167,17 @@ fn replay(id: &'static str, path: &str) -> i32 {
                 None => EXIT_INCONCLUSIVE,
             };
         }
+        "quit_then_reset" | "quit_after_backlog" | "fire_and_forget" | "silent_peer" => {
+            let ctx = Ctx::new(id, Tier::Thorough, "exploration");
+            let acc = Accum::new();
+            let r = match replay_kind(path).as_str() {
+                "quit_then_reset" => props::l3phases::quit_then_reset_phase(&ctx, &acc),
+                "quit_after_backlog" => props::l3phases::quit_after_backlog_phase(&ctx, &acc),
+                "fire_and_forget" => props::l3phases::fire_and_forget_phase(&ctx, &acc, id),
+                _ => props::l3phases::silent_peer_phase(&ctx, &acc),
+            };
+            return r.unwrap_or(EXIT_OK);
+        }
         "active_connection" => {
             let ctx = Ctx::new(id, Tier::Thorough, "exploration");
             let acc = Accum::new();
